@@ -1,2 +1,4 @@
 //! proptest strategies (constructive, shrinkable).
 pub mod program;
+pub mod lzma2;
+pub mod xz;
